@@ -16,12 +16,12 @@ Inductive val :=
 | VInt (z : Z)
 | VList (mut : bool) (l : list val).
 
-Inductive err := EValue | EType | EStop | ENoMatch | ETooLarge | EOther.
+Inductive err := EValue | EType | EStop | ENoMatch | ETooLarge | EIndex | EKey | EOther.
 
 Definition err_eqb (a b : err) : bool :=
   match a, b with
   | EValue, EValue | EType, EType | EStop, EStop | ENoMatch, ENoMatch
-  | ETooLarge, ETooLarge | EOther, EOther => true
+  | ETooLarge, ETooLarge | EIndex, EIndex | EKey, EKey | EOther, EOther => true
   | _, _ => false
   end.
 
@@ -389,3 +389,20 @@ Fixpoint range_fuel (fuel : nat) (cur stop step : Z) : list val :=
   end.
 Definition range_l (start stop step : Z) : list val :=
   range_fuel (Z.to_nat (Z.abs (stop - start)) + 1) start stop step.
+
+(* flatten: every nested sequence is expanded, depth first *)
+Fixpoint flat_val (v : val) : list val :=
+  match v with VList _ l => flat_map flat_val l | x => [x] end.
+
+(* sequence * n *)
+Definition times_l (l : list val) (n : Z) : list val := concat (repeat l (Z.to_nat n)).
+
+(* Python indexing lst[i] *)
+Definition py_index (l : list val) (i : Z) : option val :=
+  let n := Z.of_nat (length l) in
+  let j := if Z.ltb i 0 then (i + n)%Z else i in
+  if Z.leb 0 j && Z.ltb j n then nth_error l (Z.to_nat j) else None.
+
+(* set comparisons *)
+Definition set_le (a b : list val) : bool := forallb (fun x => vmem x b) a.
+Definition set_lt (a b : list val) : bool := set_le a b && Nat.ltb (length a) (length b).
